@@ -1,6 +1,7 @@
 #!/usr/bin/env python3
 """dev helper: cmp.py <profile> <seed> <cases> — run both sides and summarise differences"""
 import subprocess, sys
+subprocess.run(['cargo','build','--release','--offline','-q'],cwd='/verif/harness',stderr=subprocess.DEVNULL)
 H='/verif/harness/target/release/harness'; D='/verif/lean/.lake/build/bin/driver'
 prof, seed, n = sys.argv[1], sys.argv[2], sys.argv[3]
 s = subprocess.run([H,'gen',prof,seed,n],stdout=subprocess.PIPE).stdout
